@@ -10,6 +10,7 @@ import ClaripyProofs.Lemmas.VSA.AshrSound
 import ClaripyProofs.Lemmas.VSA.MeetFinal
 import ClaripyProofs.Lemmas.VSA.MulTop
 import ClaripyProofs.Lemmas.VSA.ModSound
+import ClaripyProofs.Lemmas.VSA.ModFull4
 /-!
 The structural soundness theorem of `convBV`/`convB` with the *proved* interval operations discharged:
 `add, sub, neg, not, and, or, xor, concat, zero_extend, sign_extend, extract, udiv, shl, lshr, ashr, union (If), ULT/ULE/UGT/UGE,
@@ -86,16 +87,16 @@ theorem usesRestB_false : ∀ c : BExp, usesRestB c = false
 end
 
 mutual
-/-- the abstract operands of every `==` / `!=` / `*` node and the divisor of every `%` node are aligned (their upper bounds
-are members): the guard under which the meet, hence `eq`, `mul` and `mod`, is sound (`meet_sound`, `mul_sound`, `mod_sound`);
-evaluated along the same order stream as `convBV` -/
+/-- the abstract operands of every `==` / `!=` / `*` node are aligned (their upper bounds are members): the guard under which the
+meet, hence `eq` and `mul`, is sound (`meet_sound`, `mul_sound`); `%` needs no guard (`mod_sound_full`); evaluated along the
+same order stream as `convBV` -/
 def alBV (anno : Nat → SI) : BV → Orders → Prop
   | .var _ _, _ => True
   | .free _ _, _ => True
   | .const _ _, _ => True
   | .bin op a b, o => alBV anno a o ∧ ∀ p1, convBV anno a o = .ok p1 →
       (alBV anno b p1.2 ∧ ∀ p2, convBV anno b p1.2 = .ok p2 →
-        (op = .mul → p1.1.si.Aligned) ∧ (op = .mul ∨ op = .urem → p2.1.si.Aligned))
+        (op = .mul → p1.1.si.Aligned) ∧ (op = .mul → p2.1.si.Aligned))
   | .neg a, o => alBV anno a o
   | .not a, o => alBV anno a o
   | .zext _ a, o => alBV anno a o
@@ -116,12 +117,12 @@ def alB (anno : Nat → SI) : BExp → Orders → Prop
 end
 
 mutual
-/-- does the AST contain `==`, `!=`, `*` or `%` (the operations that are sound on aligned operands only)? -/
+/-- does the AST contain `==`, `!=` or `*` (the operations that are sound on aligned operands only)? -/
 def usesEqBV : BV → Bool
   | .var _ _ => false
   | .free _ _ => false
   | .const _ _ => false
-  | .bin op a b => decide (op = .mul) || decide (op = .urem) || usesEqBV a || usesEqBV b
+  | .bin op a b => decide (op = .mul) || usesEqBV a || usesEqBV b
   | .neg a => usesEqBV a
   | .not a => usesEqBV a
   | .zext _ a => usesEqBV a
@@ -139,7 +140,7 @@ def usesEqB : BExp → Bool
 end
 
 mutual
-/-- without `==` / `!=` / `*` / `%` the alignment guard is void -/
+/-- without `==` / `!=` / `*` the alignment guard is void -/
 theorem alBV_of_noEq (anno : Nat → SI) : ∀ (e : BV) (o : Orders), usesEqBV e = false → alBV anno e o
   | .var _ _, _, _ => trivial
   | .free _ _, _, _ => trivial
@@ -147,7 +148,7 @@ theorem alBV_of_noEq (anno : Nat → SI) : ∀ (e : BV) (o : Orders), usesEqBV e
   | .bin op a b, o, h => by
     simp only [usesEqBV, Bool.or_eq_false_iff, decide_eq_false_iff_not] at h
     exact ⟨alBV_of_noEq anno a o h.1.2, fun p1 _ => ⟨alBV_of_noEq anno b p1.2 h.2, fun _ _ =>
-      ⟨fun he => absurd he h.1.1.1, fun he => by rcases he with he | he; exact absurd he h.1.1.1; exact absurd he h.1.1.2⟩⟩⟩
+      ⟨fun he => absurd he h.1.1, fun he => absurd he h.1.1⟩⟩⟩
   | .neg a, o, h => by simp only [usesEqBV] at h; exact alBV_of_noEq anno a o h
   | .not a, o, h => by simp only [usesEqBV] at h; exact alBV_of_noEq anno a o h
   | .zext _ a, o, h => by simp only [usesEqBV] at h; exact alBV_of_noEq anno a o h
@@ -261,7 +262,7 @@ end
 
 theorem bin_proved (op : BinOp) (hop : restBin op = false) (a b r : SI) (o o' : Orders) (wa : a.WF) (wb : b.WF)
     (hbits : a.bits = b.bits) (hab : a.bottom = false) (hbb : b.bottom = false) (na : Nrm a) (nb : Nrm b)
-    (hmul : (op = .mul → a.Aligned) ∧ (op = .mul ∨ op = .urem → b.Aligned)) (h : applyBin op a b o = .ok (r, o')) :
+    (hmul : (op = .mul → a.Aligned) ∧ (op = .mul → b.Aligned)) (h : applyBin op a b o = .ok (r, o')) :
     (r.WF ∧ r.bits = a.bits) ∧ ∀ x y v, a.mem x → b.mem y → concBin op a.bits x y = some v → r.mem v := by
   cases op <;> simp only [restBin] at hop <;> try (exact absurd hop (by decide))
   · -- add
@@ -293,7 +294,7 @@ theorem bin_proved (op : BinOp) (hop : restBin op = false) (a b r : SI) (o o' : 
     have := pure_ok _ _ h
     cases this
     have hA := hmul.1 rfl
-    have hB := hmul.2 (Or.inl rfl)
+    have hB := hmul.2 rfl
     obtain ⟨g1, g2⟩ := mul_sound a.bits a b r ⟨wa, rfl⟩ ⟨wb, hbits.symm⟩ hab hbb hA hB na nb h1
     refine ⟨g1, ?_⟩
     intro x y v hx hy hv
@@ -323,7 +324,7 @@ theorem bin_proved (op : BinOp) (hop : restBin op = false) (a b r : SI) (o o' : 
     obtain ⟨r1, h1, h⟩ := bind_ok _ _ _ h
     have := pure_ok _ _ h
     cases this
-    obtain ⟨⟨g1, _⟩, g2⟩ := mod_sound a.bits a b r ⟨wa, rfl⟩ ⟨wb, hbits.symm⟩ hab hbb (hmul.2 (Or.inr rfl)) h1
+    obtain ⟨⟨g1, _⟩, g2⟩ := mod_sound_full a.bits a b r ⟨wa, rfl⟩ ⟨wb, hbits.symm⟩ hab hbb h1
     refine ⟨g1, ?_⟩
     intro x y v hx hy hv
     simp only [concBin] at hv
